@@ -5,7 +5,7 @@ from hypothesis import strategies as st
 from streamz import Stream
 from streamz.dataframe import DataFrame
 
-from harness.runner import Part, Result
+from harness.runner import Part, Result, fuzz_part as runner_fuzz_part
 from props import dfcommon as dc
 
 ID = "C11"
@@ -234,4 +234,6 @@ def execute_large(case):
 
 PARTS = [Part("splits", case_strategy, execute, quick=800, thorough=4000),
          Part("long-streams", None, execute_large, quick=0, thorough=0, shards=1,
-              exhaustive=large_cases)]
+              exhaustive=large_cases),
+         Part("coverage-guided:splits", None, execute, quick=0, thorough=0, shards=1,
+              exhaustive=runner_fuzz_part(ID, "splits"))]
